@@ -11,6 +11,7 @@
 //!        I<q>k<k> pipe_in stream k into object q   J<q>k<k>d<d> pipe stream k through q (depth d, 0 = default); output kept by the caller
 //!        G<k>n<n> produce n items on stream k   H<k> end stream k   N<n> consume n outputs (0 = until the end)   K drop the output stream
 //!        Z<k> block until the pipe of stream k has released its input stream and closure
+//!        Q<c> unpark caller c's thread (a stale wake-up token: park may always return spuriously)
 //!        V<e> block until event e   W wait until every started panic has finished unwinding   P<q> every scheduling attempt on q must panic
 //! Body:  t touch | w<e> await event (future bodies) | g<g> block on gate | p panic | s<e> fire event | (op) nested op
 
@@ -44,6 +45,7 @@ pub enum Op {
     Consume(usize),
     DropStream,
     AwaitRelease(usize),
+    Noise(usize),
 }
 
 #[derive(Clone, Debug, PartialEq)]
@@ -101,6 +103,7 @@ pub fn fmt_op(o: &Op) -> String {
         Op::Consume(n) => format!("N{}", n),
         Op::DropStream => "K".into(),
         Op::AwaitRelease(k) => format!("Z{}", k),
+        Op::Noise(c) => format!("Q{}", c),
     }
 }
 impl Program {
@@ -195,6 +198,7 @@ fn parse_op(cs: &[char], i: &mut usize) -> Result<Op, String> {
         'N' => Op::Consume(parse_num(cs, i)?),
         'K' => Op::DropStream,
         'Z' => Op::AwaitRelease(parse_num(cs, i)?),
+        'Q' => Op::Noise(parse_num(cs, i)?),
         _ => return Err(format!("bad op {}", c))
     })
 }
@@ -394,6 +398,12 @@ pub fn generate(p: &Profile, r: &mut Rng) -> Program {
         // shuffle
         for i in (1..f.len()).rev() { let j = r.below(i + 1); f.swap(i, j); }
         callers.push(f);
+    }
+    // stale unpark tokens: a thread's park() may return at any time, so every parking loop must re-check its condition
+    if p.w_fd + p.w_fs + p.w_after + p.w_suspend > 0 && r.chance(1, 3) {
+        let n = callers.len();
+        let noise: Vec<Op> = (0..1 + r.below(3)).map(|_| Op::Noise(r.below(n))).collect();
+        callers.push(noise);
     }
     Program { nq, pool, nev, ngates, callers }
 }
